@@ -703,7 +703,7 @@ pub fn terminal_checks(sim: &mut Sim, snap: &VerifSnapshot, m: Mon, ex: &mut Exe
         }
     }
     if on(m, 18) {
-        check_c18(&cfg, &nh, &mut v, ex);
+        check_c18(&cfg, &nh, &disp, &mut v, ex);
     }
     if on(m, 1) && !sim.aborted && !any_failed {
         let clean = cfg.clean();
@@ -748,7 +748,7 @@ pub fn terminal_checks(sim: &mut Sim, snap: &VerifSnapshot, m: Mon, ex: &mut Exe
 
 /// C18: records of absent jobs kept (unless superseded), removed dependencies
 /// dropped, nothing invented
-pub fn check_c18(cfg: &Cfg, nh: &Hist, v: &mut Vec<Viol>, ex: &mut Exercised) {
+pub fn check_c18(cfg: &Cfg, nh: &Hist, disp: &[Disp], v: &mut Vec<Viol>, ex: &mut Exercised) {
     let g = &cfg.graph;
     let present_ids: HashSet<&str> = g.jobs.iter().map(|j| &j.id[..]).collect();
     let mut part_owner: BTreeMap<&str, &str> = BTreeMap::new();
@@ -775,9 +775,18 @@ pub fn check_c18(cfg: &Cfg, nh: &Hist, v: &mut Vec<Viol>, ex: &mut Exercised) {
                     }
                 }
             } else if superseded(a) {
-                ex.hit("C18.superseded");
-                if nh.contains_key(k) {
-                    v.push(viol("C18", "superseded-kept", format!("record {} of superseded job {} is kept", k, a)));
+                // X!!!d says what the present job d last consumed from the superseded id X; it cannot
+                // vouch for a rewritten file.  If d got a new link in this evaluation (it ran or was validly
+                // skipped) the old one must go; if d failed or was never started, the old link is all there
+                // is to validate d with on the resume (C09), so kept or dropped are both accepted here.
+                let consumer_unsettled = g.idx(b).map(|j| !matches!(disp[j], Disp::Ok | Disp::Skipped)).unwrap_or(false);
+                if !consumer_unsettled {
+                    ex.hit("C18.superseded");
+                    if nh.contains_key(k) {
+                        v.push(viol("C18", "superseded-kept", format!("record {} of superseded job {} is kept", k, a)));
+                    }
+                } else if nh.get(k).map(|x| x != val).unwrap_or(false) {
+                    v.push(viol("C18", "absent-changed", format!("record {} of a superseded job was rewritten: {:?}", k, nh.get(k))));
                 }
             } else if superseded(b) {
                 // u!!!X: kept or dropped are both fine
